@@ -1321,8 +1321,8 @@ fn number_decode(data: &[u8]) -> Option<usize> {
     for b in data.iter().rev() {
         match b {
             b'0'..=b'9' => {
-                result += (b - b'0') as usize * mult;
-                mult *= 10;
+                result = result.saturating_add(((b - b'0') as usize).saturating_mul(mult));
+                mult = mult.saturating_mul(10);
             }
             _ => return None,
         }
